@@ -12,7 +12,7 @@ CONSTANTS
   MaxRequery = 0
   FixCommitState = TRUE
   SeqSMP = FALSE
-  FixSMPReset = FALSE
+  FixSMPReset = TRUE
 INVARIANTS EmitWitness
 VIEW View
 CHECK_DEADLOCK FALSE
